@@ -99,6 +99,7 @@ type ChanInv struct {
 	PkgPath  string
 	resolved string
 	Open     bool // "never closed" predicate instead of a value invariant
+	AssumeOnly bool
 }
 
 // Lemma is a proof obligation over the composition of real functions: the
@@ -379,6 +380,18 @@ func ParseContracts(dir, pkgPath string) (*PkgContracts, error) {
 			}
 			tn := strings.TrimSpace(rest[:i])
 			pc.Relies[tn] = append(pc.Relies[tn], c)
+			cur = nil
+		case "chanassume":
+			// chanassume <elem type>: P(ch, v) -- assumed for every received value, never checked at sends (listed in evidence)
+			i := strings.Index(rest, ":")
+			if i < 0 {
+				return nil, fmt.Errorf("%s:%d: bad chanassume", file, l.no)
+			}
+			c, err := mkClause(kw, props, strings.TrimSpace(rest[i+1:]), l.no)
+			if err != nil {
+				return nil, err
+			}
+			pc.ChanInvs = append(pc.ChanInvs, &ChanInv{Elem: strings.TrimSpace(rest[:i]), Clause: c, PkgPath: pkgPath, AssumeOnly: true})
 			cur = nil
 		case "chanopen":
 			// chanopen <elem type>: P(ch)  -- channels satisfying P are never closed
